@@ -37,12 +37,42 @@ def families(tier):
         ("stack-lattice", lambda: fam.g1_stack(tier), 64),
         ("pair-lattice", lambda: (c for k, c in enumerate(fam.g1_pairs("quick")) if k % (4 if q else 2) == 0), 64),
         ("G3-corpus", lambda: fam.corpus_cases(tier, G3_Q, G3_T), 16),
+        # one structure object with two models of different geometry, queried model 1, model 2, model 1 again: each answer is judged against its own model
+        ("two-models", lambda: fam.two_model_cases(fam.g1_stack(tier), 37 if q else 11, 5), 8),
     ]
+
+
+def run_two_models(case):
+    from rnapolis.annotator import find_stackings
+
+    out = []
+    s = fam.two_model_structure(case)
+    refs = {1: refann.from_structure3d(fam.structure_of(case["m1"])), 2: refann.from_structure3d(fam.structure_of(dict(case["m2"], idmode=case["m1"].get("idmode", 0))))}
+    tot = [0, 0, 0]
+    seen = []
+    for step, m in enumerate((1, 2, 1)):
+        r = observe(find_stackings, s, m)
+        if r[0] == "exc":
+            out.append(viol("find_stackings:model:" + r[1], "find_stackings(structure, %d) raised %s" % (m, r[2])))
+            continue
+        got = [(st.nt1.auth.number, st.nt1.auth.icode, st.nt2.auth.number, st.nt2.auth.icode, st.topology.value if st.topology else None) for st in r[1]]
+        seen.append(got)
+        res = ac.judge_stackings(refs[m], r[1], out, ":model%d-call%d" % (m, step + 1))
+        for k in range(3):
+            tot[k] += res[k]
+    if len(seen) == 3 and seen[0] != seen[2]:
+        out.append(viol("stacking:model-answer-changes", "find_stackings(structure, 1) answers differently after model 2 was queried on the same object", seen[2], seen[0]))
+    u = {}
+    for v in out:
+        u.setdefault(v["signature"].split(":model")[0] + (":other-model" if ":model" in v["signature"] else ""), v)
+    return dict(nontrivial=bool(tot[0] or tot[1]), outcome="two-models reported=%d demanded=%d" % (min(tot[0], 3), min(tot[1], 3)), violations=list(u.values()), undecided=bool(tot[2]))
 
 
 def run_case(case):
     from rnapolis.annotator import find_stackings
 
+    if case["g"] == 4:
+        return run_two_models(case)
     out = []
     s = fam.corpus_variant_structure(case) if case["g"] == 3 else fam.structure_of(case)
     r = observe(find_stackings, s)
